@@ -300,10 +300,12 @@ class ChangeNode:
 
         class M(Module):
             p = Parameter('parameter under test', datatype=dt, readonly=False)
-        self.dt = dt
         self.node = Node({'m': {'cls': M, 'description': 'C01'}})
         self.module = self.node.modules['m']
         self.conn = self.node.connect()
+        # the datatype the parameter really has: Parameter copies it (a scaled copy has its limits rounded to the grid)
+        self.dt = self.module.parameters['p'].datatype
+        self.tree = dtcodec.dt_to_tree(self.dt)
 
     def hold(self, value):
         """a driver update: the parameter now holds dt(value) (or keeps its value when __call__ refuses)"""
@@ -337,7 +339,7 @@ def eval_change(case, cn=None):
     out = _enc(cn.change(cand))
     if not dtcodec.encodable(held):
         return None, out
-    req = {'p': 'C01', 'k': 'change', 'dt': case['tree'], 'cand': case['cand'], 'held': dtcodec.py_to_json(held),
+    req = {'p': 'C01', 'k': 'change', 'dt': cn.tree, 'cand': case['cand'], 'held': dtcodec.py_to_json(held),
            'hint': dtcodec.py_to_json(hint[1]) if hint[0] == 'ok' and dtcodec.encodable(hint[1]) else None, 'out': out}
     return req, out
 
@@ -507,7 +509,8 @@ def run(ctx):
     cases = []
     for c in load_corpus(ctx):
         cases.append((c, 'corpus'))
-    trees = gen.all_kind_trees(rng, maxdepth) + gen.length_limited_trees(rng, max(16, ntrees // 12))
+    trees = gen.all_kind_trees(rng, maxdepth) + gen.length_limited_trees(rng, max(16, ntrees // 12)) + \
+        gen.extreme_scaled_trees(rng, max(6, ntrees // 30))
     while len(trees) < ntrees:
         d = rng.choice([1, 2, 2, 3, 3, 3] + ([4, 5] if big else []))
         trees.append(gen.gen_tree(rng, min(d, maxdepth)))
